@@ -5,6 +5,7 @@ import Sgz.Model.Pipeline
 import Sgz.Model.Writer
 import Sgz.Model.IO
 import Sgz.Model.Cache
+import Sgz.Model.Axes
 /-!
 Line-protocol driver over the executable model (`Sgz/Model`, Mathlib-free).  One request per line, one answer per
 line.  The Python harness sends the same request to the real implementation and diffs canonical answers.
@@ -247,6 +248,19 @@ def handleHist (line : String) : String :=
       | _, _, _ => "bad-op"
     | _, _ => "bad-op"
 
+/-- `axes pack V` (the word `struct.pack('<i')` stores, or `err`), `axes dec SU DU N` (the axis the reader regenerates) -/
+def handleAxes (ws : List String) : String :=
+  match ws with
+  | ["pack", v] =>
+    match v.toInt? with
+    | some v => match Axes.packI32 v with | some w => toString w | none => "err"
+    | none => "bad-op"
+  | ["dec", su, du, n] =>
+    match su.toNat?, du.toNat?, n.toNat? with
+    | some su, some du, some n => " ".intercalate ((Axes.decodeAxis su du n).map toString)
+    | _, _, _ => "bad-op"
+  | _ => "bad-op"
+
 def handle (line : String) : String :=
   if line.startsWith "hist " then handleHist (line.drop 5).toString else
   match (line.trimAscii.toString.splitOn " ").filter (· ≠ "") with
@@ -256,6 +270,7 @@ def handle (line : String) : String :=
   | "pipe" :: rest => handlePipe rest
   | "writer" :: rest => handleWriter rest
   | "io" :: rest => handleIO rest
+  | "axes" :: rest => handleAxes rest
   | "hashfeed" :: rest => handleHashFeed rest
   | ["ping"] => "pong"
   | _ => "bad-op"
